@@ -19,7 +19,7 @@ RULE = ("triples of diagrams with 0..N points (N=60 quick, 300 thorough; sizes 0
 ASSUMPTIONS = ["laws on the real code are compared with tolerance 1e-9*scale (bottleneck) / 1e-6*scale*(n+1) (Wasserstein: "
                "sklearn's expanded Euclidean formula leaves ~1e-8*scale between identical points)",
                "the theorems are about the specification values; that the code computes them is C01/C02"]
-PROP_FILES = ["PersimVerif/Props/C07.lean", "PersimVerif/Lemmas/MatchingLaws.lean"]
+PROP_FILES = ["PersimVerif/Props/C07.lean", "PersimVerif/Lemmas/MatchingLaws.lean", "PersimVerif/Lemmas/PermEquiv.lean"]
 
 
 def A(d):
